@@ -19,7 +19,7 @@ use domain::net::server::middleware::xfr::{XfrData, XfrDataProvider, XfrDataProv
 use domain::net::server::service::{CallResult, Service, ServiceError, ServiceFeedback, ServiceResult};
 use domain::net::xfr::protocol::XfrResponseInterpreter;
 use domain::zonetree::update::ZoneUpdater;
-use domain::zonetree::{InMemoryZoneDiff, Zone};
+use domain::zonetree::{InMemoryZoneDiff, ReadableZone, StoredName, WritableZone, Zone, ZoneStore};
 use futures_util::stream::{Stream, StreamExt};
 use std::future::Future;
 use std::pin::Pin;
@@ -69,6 +69,63 @@ impl<M> XfrDataProvider<M> for Provider {
         }
         let data = XfrData::new(self.zone.clone(), diffs, self.compat);
         Box::pin(std::future::ready(Ok(data)))
+    }
+}
+
+/// A zone store that lets a prepared commit land right after its n-th
+/// `read()` call returned: the interleaving "a writer commits between two
+/// reads of one request" that a single-threaded run of the synchronous
+/// request path can otherwise never produce.
+pub(super) struct RacyStore {
+    inner: Zone,
+    apex: StoredName,
+    pending: std::sync::Mutex<Option<(usize, Box<dyn WritableZone>)>>,
+    reads: std::sync::atomic::AtomicUsize,
+    pub fired: Arc<std::sync::atomic::AtomicBool>,
+}
+
+impl std::fmt::Debug for RacyStore {
+    fn fmt(&self, f: &mut std::fmt::Formatter<'_>) -> std::fmt::Result {
+        write!(f, "RacyStore")
+    }
+}
+
+impl RacyStore {
+    pub fn new(inner: Zone, fire_at_read: usize, pending: Box<dyn WritableZone>) -> Self {
+        RacyStore {
+            apex: inner.apex_name().clone(),
+            inner,
+            pending: std::sync::Mutex::new(Some((fire_at_read, pending))),
+            reads: std::sync::atomic::AtomicUsize::new(0),
+            fired: Arc::new(std::sync::atomic::AtomicBool::new(false)),
+        }
+    }
+}
+
+impl ZoneStore for RacyStore {
+    fn class(&self) -> Class {
+        self.inner.class()
+    }
+    fn apex_name(&self) -> &StoredName {
+        &self.apex
+    }
+    fn read(self: Arc<Self>) -> Box<dyn ReadableZone> {
+        let r = self.inner.read();
+        let n = self.reads.fetch_add(1, std::sync::atomic::Ordering::SeqCst) + 1;
+        let mut g = self.pending.lock().unwrap();
+        if matches!(&*g, Some((k, _)) if *k == n) {
+            let (_, mut w) = g.take().unwrap();
+            let _ = futures_util::FutureExt::now_or_never(w.commit(false));
+            drop(w);
+            self.fired.store(true, std::sync::atomic::Ordering::SeqCst);
+        }
+        r
+    }
+    fn write(self: Arc<Self>) -> Pin<Box<dyn Future<Output = Box<dyn WritableZone + 'static>> + Send + Sync + 'static>> {
+        self.inner.write()
+    }
+    fn as_any(&self) -> &dyn std::any::Any {
+        self
     }
 }
 
@@ -157,6 +214,41 @@ async fn run(_tier: Tier) {
         Ask::IxfrNewer => serial_of(&contents[j]).unwrap().wrapping_add(5),
         _ => serial_of(&sec_content).unwrap(),
     };
+    // Sometimes a further version is prepared and committed by "another
+    // party" right after the request path's first or second read() of the
+    // zone: the response must then describe the old or the new version,
+    // never a mixture.
+    let racy = matches!(ask, Ask::Axfr | Ask::IxfrNoJournal) && sim::chance("racy_commit", 1, 4);
+    let mut next_content: Option<Content> = None;
+    let mut fired_flag = None;
+    let zone = if racy {
+        use super::zonestore::{apply_add, rrset_of, RecSpec};
+        let w = zone.write().await;
+        let root = w.open(false).await.expect("open");
+        let mut c = contents[j].clone();
+        let rec = RecSpec {
+            owner: APEX.to_string(),
+            rtype: Rtype::TXT,
+            ttl: 300,
+            rdata: "\"committed-meanwhile\"".into(),
+        };
+        apply_add(&mut c, &rec);
+        let soa = soa_spec(serial_of(&contents[j]).unwrap().wrapping_add(1));
+        c.remove(&(APEX.to_string(), Rtype::SOA));
+        apply_add(&mut c, &soa);
+        for (o, t) in [(APEX, Rtype::TXT), (APEX, Rtype::SOA)] {
+            let (ttl, rds) = c.get(&(o.to_string(), t)).cloned().unwrap();
+            root.update_rrset(rrset_of(t, ttl, &rds, o)).await.expect("update_rrset");
+        }
+        drop(root);
+        next_content = Some(c);
+        let store = RacyStore::new(zone.clone(), 1 + sim::draw("racy_commit.at_read", 3) as usize, w);
+        fired_flag = Some(store.fired.clone());
+        sim::stat("probe.commit_prepared_to_land_between_reads");
+        Zone::new(store)
+    } else {
+        zone
+    };
     let provider = Provider {
         zone: zone.clone(),
         journal: Arc::new(journal),
@@ -231,7 +323,12 @@ async fn run(_tier: Tier) {
         Ask::Axfr | Ask::Ixfr | Ask::IxfrNoJournal => Ok(&contents[j]),
         Ask::IxfrCurrent | Ask::IxfrNewer => Err("single-soa"),
     };
+    let fired = fired_flag.as_ref().is_some_and(|f| f.load(std::sync::atomic::Ordering::SeqCst));
+    if fired {
+        sim::stat("probe.commit_landed_during_request");
+    }
     match (&verdict, &want) {
+        (RefVerdict::Complete(c, false), Ok(_)) if fired && Some(c) == next_content.as_ref() => {}
         (RefVerdict::Complete(c, false), Ok(w)) => {
             if c != *w {
                 let missing: Vec<_> = content_records(w).into_iter().filter(|r| !content_records(c).contains(r)).collect();
@@ -319,7 +416,8 @@ async fn run(_tier: Tier) {
         drop(updater);
         let seen = walk_str(&walk_zone(secondary.read().as_ref()));
         let want_w = walk_str(&content_as_walk(&contents[j]));
-        if seen != want_w {
+        let alt_w = next_content.as_ref().filter(|_| fired).map(|c| walk_str(&content_as_walk(c)));
+        if seen != want_w && Some(&seen) != alt_w.as_ref() {
             let extra: Vec<_> = seen.iter().filter(|x| !want_w.contains(x)).collect();
             let missing: Vec<_> = want_w.iter().filter(|x| !seen.contains(x)).collect();
             sim::violation(P, "fidelity", format!("secondary-differs-after-served-transfer/{:?}", ask), format!("unexpected {:?}; missing {:?}", extra, missing));
